@@ -116,13 +116,14 @@ Proof. reflexivity. Qed.
 
 (* ------------------------------------------------------------------ goto_abs *)
 (* the screen after a goto: only the cursor changes *)
-Lemma goto_abs_run : forall v l c, vt_ok v -> in_range (RGoto l c) v ->
+Lemma goto_abs_run : forall v l c,
+  0 < v_lines v -> 0 < v_cols v -> 0 <= row v < v_lines v -> 0 <= col v < v_cols v ->
+  in_range (RGoto l c) v ->
   vt_run (xt_goto_abs l c) v =
   if (l =? -1) && (c =? -1) then v
   else set_cur v (mkCursor (if l =? -1 then row v else l) (if c =? -1 then col v else c) false).
 Proof.
-  intros v l c Hok Hr.
-  destruct (vt_ok_inv v Hok) as (HL & HC & _ & _ & _ & _ & _ & Hrow & Hcol).
+  intros v l c HL HC Hrow Hcol Hr.
   unfold in_range, in_rangeb in Hr. unfold xt_goto_abs.
   destruct (l =? -1) eqn:El; destruct (0 <? c) eqn:Ec; cbn [negb andb].
   - (* CHA n *) rewrite run_cha. assert (Hc1 : (c =? -1) = false) by lia; rewrite Hc1. cbn [andb].
@@ -148,9 +149,10 @@ Lemma goto_ok : forall v l c, vt_ok v -> in_range (RGoto l c) v ->
             (vt_run (xt_goto_abs l c) v) /\
   vt_ok (vt_run (xt_goto_abs l c) v).
 Proof.
-  intros v l c Hok Hr. rewrite (goto_abs_run v l c Hok Hr).
+  intros v l c Hok Hr.
   pose proof (full_margins_of_ok v Hok) as Hm.
   destruct (vt_ok_inv v Hok) as (HL & HC & _ & _ & _ & _ & Hawm & Hrow & Hcol).
+  rewrite (goto_abs_run v l c HL HC Hrow Hcol Hr).
   unfold in_range, in_rangeb in Hr.
   destruct ((l =? -1) && (c =? -1)) eqn:E.
   - split; [|exact Hok]. unfold effect_ok. refine (conj _ (conj _ (conj _ _))).
@@ -168,4 +170,507 @@ Proof.
     + apply vt_ok_intro; vt_unfold; try assumption; try lia.
       * destruct (l =? -1); lia.
       * destruct (c =? -1); lia.
+Qed.
+
+(* a goto to a position on the screen, whatever the margins and the cursor *)
+Lemma goto_abs_pos : forall v l c, 0 <= l < v_lines v -> 0 <= c < v_cols v ->
+  vt_run (xt_goto_abs l c) v = set_cur v (mkCursor l c false).
+Proof.
+  intros v l c Hl Hc. unfold xt_goto_abs.
+  assert (El : (l =? -1) = false) by lia. rewrite El. cbn [negb andb].
+  destruct (0 <? c) eqn:Ec.
+  - rewrite run_cup2. unfold vt_cup, goto_rc.
+    destruct (l + 1 =? 0) eqn:E1; [lia|]. destruct (c + 1 =? 0) eqn:E2; [lia|].
+    rewrite !clamp_id by lia. f_equal. f_equal; lia.
+  - assert (Ec0 : (c =? 0) = true) by lia. rewrite Ec0.
+    rewrite run_cup1. unfold vt_cup, goto_rc. destruct (l + 1 =? 0) eqn:E1; [lia|].
+    rewrite !clamp_id by lia. f_equal. f_equal; lia.
+Qed.
+
+(* ------------------------------------------------------------------ move_rel *)
+Definition mg_full (v : vt) : Prop := v_mg v = full_margins (v_lines v) (v_cols v).
+
+Lemma cud_run : forall v n, mg_full v -> 0 < n -> 0 <= row v -> row v + n < v_lines v ->
+  vt_cud v n = set_cur v (mkCursor (row v + n) (col v) false).
+Proof.
+  intros v n Hm Hn Hr Hb. unfold vt_cud, goto_rc. rewrite Hm. cbn [mg_bot full_margins].
+  destruct (row v <=? v_lines v - 1) eqn:E; [|lia]. f_equal. f_equal. lia.
+Qed.
+Lemma cuu_run : forall v n, mg_full v -> 0 < n -> 0 <= row v - n -> 
+  vt_cuu v n = set_cur v (mkCursor (row v - n) (col v) false).
+Proof.
+  intros v n Hm Hn Hr. unfold vt_cuu, goto_rc. rewrite Hm. cbn [mg_top full_margins].
+  destruct (0 <=? row v) eqn:E; [|lia]. f_equal. f_equal. lia.
+Qed.
+Lemma cuf_run : forall v n, mg_full v -> 0 < n -> 0 <= col v -> col v + n < v_cols v ->
+  vt_cuf v n = set_cur v (mkCursor (row v) (col v + n) false).
+Proof.
+  intros v n Hm Hn Hr Hb. unfold vt_cuf, goto_rc. rewrite Hm. cbn [mg_right full_margins].
+  destruct (col v <=? v_cols v - 1) eqn:E; [|lia]. f_equal. f_equal. lia.
+Qed.
+Lemma cub_run : forall v n, mg_full v -> 0 < n -> 0 <= col v - n ->
+  vt_cub v n = set_cur v (mkCursor (row v) (col v - n) false).
+Proof.
+  intros v n Hm Hn Hr. unfold vt_cub, goto_rc. rewrite Hm. cbn [mg_left full_margins].
+  destruct (0 <=? col v) eqn:E; [|lia]. f_equal. f_equal. lia.
+Qed.
+
+Definition move_v (d : Z) : list token :=
+  if 1 <? d then [csi_n d 66] else if d =? 1 then [csi_0 66]
+  else if d =? -1 then [csi_0 65] else if d <? -1 then [csi_n (- d) 65] else [].
+Definition move_h (r : Z) : list token :=
+  if 1 <? r then [csi_n r 67] else if r =? 1 then [csi_0 67]
+  else if r =? -1 then [csi_0 68] else if r <? -1 then [csi_n (- r) 68] else [].
+Lemma move_rel_split : forall d r, xt_move_rel d r = move_v d ++ move_h r.
+Proof. reflexivity. Qed.
+
+Lemma move_v_run : forall v d, mg_full v -> 0 <= row v + d < v_lines v -> 0 <= row v < v_lines v ->
+  vt_run (move_v d) v = if d =? 0 then v else set_cur v (mkCursor (row v + d) (col v) false).
+Proof.
+  intros v d Hm Hd Hr. unfold move_v.
+  destruct (1 <? d) eqn:E1.
+  - rewrite run_cud. destruct (d =? 0) eqn:E0; [lia|]. rewrite cud_run by (assumption || lia). reflexivity.
+  - destruct (d =? 1) eqn:E2.
+    + rewrite run_cud0. destruct (d =? 0) eqn:E0; [lia|]. rewrite cud_run by (assumption || lia).
+      f_equal. f_equal. lia.
+    + destruct (d =? -1) eqn:E3.
+      * rewrite run_cuu0. destruct (d =? 0) eqn:E0; [lia|]. rewrite cuu_run by (assumption || lia).
+        f_equal. f_equal. lia.
+      * destruct (d <? -1) eqn:E4.
+        -- rewrite run_cuu. destruct (- d =? 0) eqn:E5; [lia|]. destruct (d =? 0) eqn:E0; [lia|].
+           rewrite cuu_run by (assumption || lia). f_equal. f_equal. lia.
+        -- assert (E0 : (d =? 0) = true) by lia. rewrite E0. reflexivity.
+Qed.
+Lemma move_h_run : forall v r, mg_full v -> 0 <= col v + r < v_cols v -> 0 <= col v < v_cols v ->
+  vt_run (move_h r) v = if r =? 0 then v else set_cur v (mkCursor (row v) (col v + r) false).
+Proof.
+  intros v r Hm Hd Hr. unfold move_h.
+  destruct (1 <? r) eqn:E1.
+  - rewrite run_cuf. destruct (r =? 0) eqn:E0; [lia|]. rewrite cuf_run by (assumption || lia). reflexivity.
+  - destruct (r =? 1) eqn:E2.
+    + rewrite run_cuf0. destruct (r =? 0) eqn:E0; [lia|]. rewrite cuf_run by (assumption || lia).
+      f_equal. f_equal. lia.
+    + destruct (r =? -1) eqn:E3.
+      * rewrite run_cub0. destruct (r =? 0) eqn:E0; [lia|]. rewrite cub_run by (assumption || lia).
+        f_equal. f_equal. lia.
+      * destruct (r <? -1) eqn:E4.
+        -- rewrite run_cub. destruct (- r =? 0) eqn:E5; [lia|]. destruct (r =? 0) eqn:E0; [lia|].
+           rewrite cub_run by (assumption || lia). f_equal. f_equal. lia.
+        -- assert (E0 : (r =? 0) = true) by lia. rewrite E0. reflexivity.
+Qed.
+
+Lemma move_rel_run : forall v d r, mg_full v ->
+  0 <= row v < v_lines v -> 0 <= col v < v_cols v ->
+  0 <= row v + d < v_lines v -> 0 <= col v + r < v_cols v ->
+  vt_run (xt_move_rel d r) v =
+  if (d =? 0) && (r =? 0) then v else set_cur v (mkCursor (row v + d) (col v + r) false).
+Proof.
+  intros v d r Hm Hr Hc Hd Hrr. rewrite move_rel_split, vt_run_app.
+  rewrite move_v_run by assumption.
+  destruct (d =? 0) eqn:Ed.
+  - rewrite move_h_run by assumption. cbn [andb]. destruct (r =? 0); [reflexivity|].
+    f_equal. f_equal. lia.
+  - cbn [andb]. rewrite move_h_run; vt_unfold; try assumption; try lia.
+    destruct (r =? 0) eqn:Er; f_equal; f_equal; lia.
+Qed.
+
+Lemma move_ok : forall v d r, vt_ok v -> in_range (RMove d r) v ->
+  effect_ok (RMove d r) true (match xt_move_rel d r with [] => true | _ => false end) v
+            (vt_run (xt_move_rel d r) v) /\
+  vt_ok (vt_run (xt_move_rel d r) v).
+Proof.
+  intros v d r Hok Hr.
+  pose proof (full_margins_of_ok v Hok) as Hm.
+  destruct (vt_ok_inv v Hok) as (HL & HC & _ & _ & _ & _ & Hawm & Hrow & Hcol).
+  unfold in_range, in_rangeb in Hr.
+  assert (Hp : pend v = false) by (destruct (pend v); [cbn in Hr; discriminate | reflexivity]).
+  rewrite move_rel_run by (assumption || lia).
+  destruct ((d =? 0) && (r =? 0)) eqn:E.
+  - split; [|exact Hok]. unfold effect_ok. refine (conj _ (conj _ (conj _ _))).
+    + unfold frame_okb. rewrite Hm, margins_eqb_refl, modes_eqb_refl. lia.
+    + unfold effect_cursorb. rewrite Hp. lia.
+    + apply attrs_eqb_refl.
+    + intros y x _ _. unfold effect_cellb. apply cell_eqb_refl.
+  - split.
+    + unfold effect_ok. refine (conj _ (conj _ (conj _ _))).
+      * unfold frame_okb. vt_unfold. rewrite Hm, margins_eqb_refl, modes_eqb_refl. lia.
+      * unfold effect_cursorb. vt_unfold. lia.
+      * vt_unfold. apply attrs_eqb_refl.
+      * intros y x _ _. unfold effect_cellb. vt_unfold. apply cell_eqb_refl.
+    + apply vt_ok_intro; vt_unfold; try assumption; lia.
+Qed.
+
+(* ------------------------------------------------------------------ print *)
+Definition same_frame (v v' : vt) : Prop :=
+  v_lines v' = v_lines v /\ v_cols v' = v_cols v /\ v_mg v' = v_mg v /\ v_sgr v' = v_sgr v /\
+  v_md v' = v_md v.
+Lemma same_frame_refl : forall v, same_frame v v.
+Proof. intros v. repeat split. Qed.
+Lemma same_frame_trans : forall a b c, same_frame a b -> same_frame b c -> same_frame a c.
+Proof.
+  intros a b c (H1 & H2 & H3 & H4 & H5) (K1 & K2 & K3 & K4 & K5). repeat split; congruence.
+Qed.
+
+Lemma putc_run : forall b v, mg_full v -> md_awm (v_md v) = true -> pend v = false ->
+  0 <= col v < v_cols v ->
+  same_frame v (vt_putc b v) /\ row (vt_putc b v) = row v /\
+  (if col v <? v_cols v - 1 then col (vt_putc b v) = col v + 1 /\ pend (vt_putc b v) = false
+   else col (vt_putc b v) = col v /\ pend (vt_putc b v) = true) /\
+  forall y x, v_grid (vt_putc b v) y x =
+              if (y =? row v) && (x =? col v) then mkCell b (v_sgr v) else v_grid v y x.
+Proof.
+  intros b v Hm Hawm Hp Hc. unfold vt_putc. rewrite Hp. cbn [andb].
+  vt_unfold.
+  assert (Hmr : mg_right (v_mg v) = v_cols v - 1) by (rewrite Hm; reflexivity). rewrite Hmr.
+  destruct (cu_col (v_cur v) <=? v_cols v - 1) eqn:E1; [|lia].
+  destruct (cu_col (v_cur v) <? v_cols v - 1) eqn:E2; vt_unfold.
+  - repeat split; try reflexivity.
+  - repeat split; try reflexivity; try assumption.
+Qed.
+
+Lemma chars_run : forall bs v, mg_full v -> md_awm (v_md v) = true ->
+  forallb printable bs = true ->
+  (pend v = false \/ bs = []) -> 0 <= col v -> col v + Z.of_nat (length bs) <= v_cols v ->
+  same_frame v (vt_run (chars bs) v) /\ row (vt_run (chars bs) v) = row v /\
+  (match bs with
+   | [] => v_cur (vt_run (chars bs) v) = v_cur v
+   | _ :: _ => if col v + Z.of_nat (length bs) <? v_cols v
+               then col (vt_run (chars bs) v) = col v + Z.of_nat (length bs) /\ pend (vt_run (chars bs) v) = false
+               else col (vt_run (chars bs) v) = v_cols v - 1 /\ pend (vt_run (chars bs) v) = true
+   end) /\
+  forall y x, v_grid (vt_run (chars bs) v) y x =
+              if (y =? row v) && (col v <=? x) && (x <? col v + Z.of_nat (length bs))
+              then mkCell (nth (Z.to_nat (x - col v)) bs 0) (v_sgr v) else v_grid v y x.
+Proof.
+  induction bs as [|b bs IH]; intros v Hm Hawm Hpr Hp Hc0 Hlen.
+  - cbn [chars map vt_run fold_left length Z.of_nat]. repeat split.
+    intros y x. destruct ((y =? row v) && (col v <=? x) && (x <? col v + 0)) eqn:E; [lia|reflexivity].
+  - destruct Hp as [Hp|Hp]; [|discriminate].
+    cbn [forallb] in Hpr. apply andb_true_iff in Hpr as [Hb Hpr].
+    cbn [length] in Hlen. rewrite Nat2Z.inj_succ in Hlen.
+    unfold chars. cbn [map]. rewrite vt_run_cons. fold (chars bs).
+    assert (Hst : vt_step v (TChar b) = vt_putc b v).
+    { cbn [vt_step]. unfold printable in Hb. destruct (b =? 127) eqn:E; [lia|reflexivity]. }
+    rewrite Hst.
+    destruct (putc_run b v Hm Hawm Hp ltac:(lia)) as (Hf & Hrow & Hcol & Hg).
+    set (v1 := vt_putc b v) in *.
+    destruct Hf as (F1 & F2 & F3 & F4 & F5).
+    assert (Hm1 : mg_full v1) by (unfold mg_full; rewrite F3, F1, F2; exact Hm).
+    assert (Hawm1 : md_awm (v_md v1) = true) by (rewrite F5; exact Hawm).
+    destruct (col v <? v_cols v - 1) eqn:Elt.
+    + destruct Hcol as [Hcol Hpend].
+      destruct (IH v1 Hm1 Hawm1 Hpr (or_introl Hpend) ltac:(lia) ltac:(rewrite Hcol, F2; lia))
+        as (Gf & Grow & Gcur & Gg).
+      split; [|split; [|split]].
+      * eapply same_frame_trans; [|exact Gf]. repeat split; assumption.
+      * congruence.
+      * cbn [length]. rewrite Nat2Z.inj_succ.
+        destruct bs as [|b' bs'].
+        -- cbn [chars map vt_run fold_left] in *. cbn [length Z.of_nat].
+           destruct (col v + Z.succ 0 <? v_cols v) eqn:E; [|lia]. split; [lia|assumption].
+        -- rewrite F2 in Gcur. rewrite Hcol in Gcur.
+           destruct (col v + 1 + Z.of_nat (length (b' :: bs')) <? v_cols v) eqn:E.
+           ++ destruct (col v + Z.succ (Z.of_nat (length (b' :: bs'))) <? v_cols v) eqn:E'; [|lia].
+              destruct Gcur as [G1 G2]. split; [lia|assumption].
+           ++ destruct (col v + Z.succ (Z.of_nat (length (b' :: bs'))) <? v_cols v) eqn:E'; [lia|].
+              exact Gcur.
+      * intros y x. rewrite Gg, Hg, Hrow, Hcol, F4. cbn [length]. rewrite Nat2Z.inj_succ.
+        destruct ((y =? row v) && (col v + 1 <=? x) && (x <? col v + 1 + Z.of_nat (length bs))) eqn:E1.
+        -- destruct ((y =? row v) && (col v <=? x) && (x <? col v + Z.succ (Z.of_nat (length bs)))) eqn:E2; [|lia].
+           f_equal. replace (Z.to_nat (x - col v)) with (S (Z.to_nat (x - (col v + 1)))) by lia.
+           reflexivity.
+        -- destruct ((y =? row v) && (x =? col v)) eqn:E3.
+           ++ destruct ((y =? row v) && (col v <=? x) && (x <? col v + Z.succ (Z.of_nat (length bs)))) eqn:E2; [|lia].
+              replace (x - col v) with 0 by lia. reflexivity.
+           ++ destruct ((y =? row v) && (col v <=? x) && (x <? col v + Z.succ (Z.of_nat (length bs)))) eqn:E2; [lia|].
+              reflexivity.
+    + destruct Hcol as [Hcol Hpend].
+      assert (Hbs : bs = []) by (destruct bs; [reflexivity | cbn [length] in Hlen; lia]).
+      subst bs. cbn [chars map vt_run fold_left length]. change (Z.of_nat 1) with 1.
+      split; [|split; [|split]].
+      * repeat split; assumption.
+      * assumption.
+      * destruct (col v + 1 <? v_cols v) eqn:E; [lia|]. split; [lia|assumption].
+      * intros y x. rewrite Hg.
+        destruct ((y =? row v) && (x =? col v)) eqn:E3.
+        -- destruct ((y =? row v) && (col v <=? x) && (x <? col v + 1)) eqn:E2; [|lia].
+           replace (x - col v) with 0 by lia. reflexivity.
+        -- destruct ((y =? row v) && (col v <=? x) && (x <? col v + 1)) eqn:E2; [lia|]. reflexivity.
+Qed.
+
+Lemma cursor_eqb_intro : forall a r c p,
+  cu_row a = r -> cu_col a = c -> cu_pend a = p -> cursor_eqb a (mkCursor r c p) = true.
+Proof.
+  intros a r c p H1 H2 H3. unfold cursor_eqb. cbn [cu_row cu_col cu_pend].
+  rewrite H1, H2, H3, !Z.eqb_refl, eqb_reflx. reflexivity.
+Qed.
+Lemma frame_okb_intro : forall v v', vt_ok v -> same_frame v v' -> frame_okb v v' = true.
+Proof.
+  intros v v' Hok (F1 & F2 & F3 & F4 & F5). unfold frame_okb.
+  rewrite F1, F2, F3, F5, (full_margins_of_ok v Hok), margins_eqb_refl, modes_eqb_refl. lia.
+Qed.
+Lemma vt_ok_frame : forall v v', vt_ok v -> same_frame v v' ->
+  0 <= row v' < v_lines v -> 0 <= col v' < v_cols v -> vt_ok v'.
+Proof.
+  intros v v' Hok (F1 & F2 & F3 & F4 & F5) Hr Hc.
+  destruct (vt_ok_inv v Hok) as (HL & HC & _ & _ & _ & _ & Hawm & _ & _).
+  apply vt_ok_intro; rewrite ?F1, ?F2, ?F3, ?F5; try assumption; try lia.
+  apply (full_margins_of_ok v Hok).
+Qed.
+
+Lemma print_ok : forall v bs, vt_ok v -> in_range (RPrint bs) v ->
+  effect_ok (RPrint bs) true (match xt_print bs with [] => true | _ => false end) v
+            (vt_run (xt_print bs) v) /\
+  vt_ok (vt_run (xt_print bs) v).
+Proof.
+  intros v bs Hok Hr.
+  pose proof (full_margins_of_ok v Hok) as Hm.
+  destruct (vt_ok_inv v Hok) as (HL & HC & _ & _ & _ & _ & Hawm & Hrow & Hcol).
+  unfold in_range, in_rangeb in Hr.
+  apply andb_true_iff in Hr as [Hr Hlen]. apply andb_true_iff in Hr as [Hpr Hp].
+  assert (Hp' : pend v = false \/ bs = []).
+  { destruct (pend v); [right|left; reflexivity]. cbn in Hp. destruct bs; [reflexivity|discriminate]. }
+  unfold xt_print.
+  destruct (chars_run bs v Hm Hawm Hpr Hp' ltac:(lia) ltac:(lia)) as (Gf & Grow & Gcur & Gg).
+  set (v' := vt_run (chars bs) v) in *. clearbody v'.
+  assert (Hcur : effect_cursorb (RPrint bs) v v' = true /\ 0 <= col v' < v_cols v).
+  { unfold effect_cursorb. destruct bs as [|b bs].
+    - cbn [length Z.of_nat]. rewrite Gcur. cbn. rewrite cursor_eqb_refl. split; [reflexivity|].
+      unfold col in *. rewrite Gcur. exact Hcol.
+    - destruct (Z.of_nat (length (b :: bs)) =? 0) eqn:E0; [cbn [length] in E0; lia|].
+      destruct (col v + Z.of_nat (length (b :: bs)) <? v_cols v) eqn:E1.
+      + destruct Gcur as [G1 G2]. split; [apply cursor_eqb_intro; assumption | lia].
+      + destruct Gcur as [G1 G2]. split; [apply cursor_eqb_intro; assumption | lia]. }
+  destruct Hcur as [Hcur Hcol'].
+  split.
+  - unfold effect_ok. refine (conj _ (conj _ (conj _ _))).
+    + apply frame_okb_intro; assumption.
+    + exact Hcur.
+    + destruct Gf as (_ & _ & _ & F4 & _). rewrite F4. apply attrs_eqb_refl.
+    + intros y x _ _. unfold effect_cellb. rewrite Gg.
+      destruct ((y =? row v) && (col v <=? x) && (x <? col v + Z.of_nat (length bs))); apply cell_eqb_refl.
+  - apply (vt_ok_frame v v' Hok Gf); [rewrite Grow; exact Hrow | exact Hcol'].
+Qed.
+
+(* ------------------------------------------------------------------ clear *)
+Lemma clear_ok : forall v, vt_ok v ->
+  effect_ok RClear true false v (vt_run xt_clear v) /\ vt_ok (vt_run xt_clear v).
+Proof.
+  intros v Hok.
+  assert (Hrun : vt_run xt_clear v = vt_ed v 2) by reflexivity.
+  rewrite Hrun. unfold vt_ed.
+  assert (Hf : same_frame v (set_grid v (fun y x =>
+     if (if 2 =? 0 then (row v <? y) || ((y =? row v) && (col v <=? x))
+         else if 2 =? 1 then (y <? row v) || ((y =? row v) && (x <=? col v)) else 2 =? 2)
+     then blank v else v_grid v y x))) by (repeat split).
+  destruct (vt_ok_inv v Hok) as (HL & HC & _ & _ & _ & _ & Hawm & Hrow & Hcol).
+  split.
+  - unfold effect_ok. refine (conj _ (conj _ (conj _ _))).
+    + apply frame_okb_intro; assumption.
+    + unfold effect_cursorb. vt_unfold. lia.
+    + vt_unfold. apply attrs_eqb_refl.
+    + intros y x _ _. unfold effect_cellb. vt_unfold. reflexivity.
+  - apply (vt_ok_frame v _ Hok Hf); vt_unfold; assumption.
+Qed.
+
+(* ------------------------------------------------------------------ erasech *)
+Lemma run_ech : forall v a, vt_run [csi_n a 88] v = vt_ech v (if a =? 0 then 1 else a).
+Proof. reflexivity. Qed.
+Lemma run_ech0 : forall v, vt_run [csi_0 88] v = vt_ech v 1.
+Proof. reflexivity. Qed.
+
+Lemma vcol_eqb_refl : forall c, vcol_eqb c c = true.
+Proof. intros [| |n|r g b]; cbn; lia. Qed.
+
+Lemma chars_app : forall a b, chars (a ++ b) = chars a ++ chars b.
+Proof. intros a b. unfold chars. apply map_app. Qed.
+
+(* the 64-space chunks are just [count] spaces *)
+Lemma spaces_chunks_eq : forall fuel count, 0 <= count -> (Z.to_nat (count / 64) < fuel)%nat ->
+  spaces_chunks fuel count = chars (repeat 32 (Z.to_nat count)).
+Proof.
+  induction fuel as [|f IH]; intros count H0 Hf; [lia|].
+  cbn [spaces_chunks]. destruct (64 <? count) eqn:E; [|reflexivity].
+  rewrite IH.
+  - rewrite <- chars_app, <- repeat_app. f_equal. f_equal. lia.
+  - lia.
+  - assert (Hd : (count - 64) / 64 = count / 64 - 1).
+    { replace (count - 64) with (count + (-1) * 64) by lia. rewrite Z.div_add by lia. lia. }
+    assert (1 <= count / 64) by (apply Z.div_le_lower_bound; lia).
+    rewrite Hd. lia.
+Qed.
+
+Lemma nth_repeat_lt : forall (A : Type) (a d : A) n k, (k < n)%nat -> nth k (repeat a n) d = a.
+Proof.
+  intros A a d n. induction n as [|n IH]; intros k Hk; [lia|].
+  destruct k as [|k]; [reflexivity|]. cbn [repeat nth]. apply IH. lia.
+Qed.
+Lemma forallb_repeat : forall (A : Type) (f : A -> bool) a n, f a = true -> forallb f (repeat a n) = true.
+Proof. intros A f a n H. induction n as [|n IH]; [reflexivity|]. cbn. rewrite H, IH. reflexivity. Qed.
+
+(* the one situation in which the requested final position is missed (recorded finding):
+   spaces written up to the right edge leave the cursor in the pending-wrap state on the
+   last column, and the move back starts from there *)
+Definition erase_trigger (rv : bool) (n : Z) (me : maybe) (v : vt) : bool :=
+  rv && (match me with MNo => true | _ => false end) && (1 <=? n) && (col v + n =? v_cols v) && (0 <? col v).
+
+Lemma erase_ok : forall v rv n me, vt_ok v -> in_range (RErase n me) v ->
+  rv = a_reverse (v_sgr v) -> erase_trigger rv n me v = false ->
+  effect_ok (RErase n me) true (match xt_erasech rv n me with [] => true | _ => false end) v
+            (vt_run (xt_erasech rv n me) v) /\
+  vt_ok (vt_run (xt_erasech rv n me) v).
+Proof.
+  intros v rv n me Hok Hr Hrv Htr.
+  pose proof (full_margins_of_ok v Hok) as Hm.
+  destruct (vt_ok_inv v Hok) as (HL & HC & _ & _ & _ & _ & Hawm & Hrow & Hcol).
+  unfold in_range, in_rangeb in Hr. unfold xt_erasech.
+  destruct (n <? 1) eqn:En.
+  - (* nothing to do *)
+    rewrite vt_run_nil. split; [|exact Hok].
+    unfold effect_ok. refine (conj _ (conj _ (conj _ _))).
+    + apply frame_okb_intro; [assumption | apply same_frame_refl].
+    + unfold effect_cursorb. rewrite En. apply cursor_eqb_refl.
+    + apply attrs_eqb_refl.
+    + intros y x _ _. unfold effect_cellb.
+      destruct ((y =? row v) && (col v <=? x) && (x <? col v + n)) eqn:E; [lia|apply cell_eqb_refl].
+  - cbn [orb] in Hr.
+    assert (Hp : pend v = false) by (destruct (pend v); [cbn in Hr; discriminate | reflexivity]).
+    rewrite Hp in Hr. cbn [negb andb] in Hr.
+    destruct rv; cbn [negb].
+    + (* reverse video: spaces *)
+      rewrite spaces_chunks_eq by lia. rewrite vt_run_app.
+      assert (Hlen : Z.of_nat (length (repeat 32 (Z.to_nat n))) = n) by (rewrite repeat_length; lia).
+      assert (Hpr : forallb printable (repeat 32 (Z.to_nat n)) = true) by (apply forallb_repeat; reflexivity).
+      destruct (chars_run (repeat 32 (Z.to_nat n)) v Hm Hawm Hpr (or_introl Hp) ltac:(lia)
+                          ltac:(rewrite Hlen; lia)) as (Gf & Grow & Gcur & Gg).
+      rewrite Hlen in Gcur, Gg.
+      destruct (repeat 32 (Z.to_nat n)) as [|b0 bs0] eqn:Erep.
+      { cbn [length Z.of_nat] in Hlen. lia. }
+      rewrite <- Erep in *. clear Erep b0 bs0.
+      set (v1 := vt_run (chars (repeat 32 (Z.to_nat n))) v) in *. clearbody v1.
+      assert (Hcells : forall v', same_frame v v' -> (forall y x, v_grid v' y x = v_grid v1 y x) ->
+                forall y x, effect_cellb (RErase n me) v v' y x = true).
+      { intros v' Hf' Hg' y x. unfold effect_cellb. rewrite Hg', Gg.
+        destruct ((y =? row v) && (col v <=? x) && (x <? col v + n)) eqn:E; [|apply cell_eqb_refl].
+        cbn [c_glyph c_attrs]. rewrite nth_repeat_lt by lia. rewrite vcol_eqb_refl. reflexivity. }
+      assert (Hsgr1 : v_sgr v1 = v_sgr v) by (destruct Gf as (_ & _ & _ & F4 & _); exact F4).
+      destruct me.
+      * (* MNo: move back *)
+        unfold erase_trigger in Htr. cbn [andb] in Htr.
+        assert (Hm1 : mg_full v1).
+        { destruct Gf as (F1 & F2 & F3 & _). unfold mg_full. rewrite F1, F2, F3. exact Hm. }
+        assert (Hmv : vt_run (xt_move_rel 0 (- n)) v1 = set_cur v1 (mkCursor (row v) (col v) false)).
+        { destruct Gf as (F1 & F2 & F3 & _).
+          destruct (col v + n <? v_cols v) eqn:E1.
+          - destruct Gcur as [G1 G2].
+            rewrite move_rel_run by (rewrite ?F1, ?F2, ?Grow, ?G1; assumption || lia).
+            assert (E0 : ((0 =? 0) && (- n =? 0)) = false) by lia. rewrite E0.
+            f_equal. f_equal; lia.
+          - (* at the right edge, only harmless when the erase began in column 0 *)
+            destruct Gcur as [G1 G2].
+            assert (Hc0 : col v = 0) by lia.
+            rewrite move_rel_split. unfold move_v. cbn [Z.ltb Z.eqb Z.compare app].
+            unfold move_h.
+            assert (Hcub : forall k, 0 < k -> v_cols v - 1 - k <= 0 ->
+                      vt_cub v1 k = set_cur v1 (mkCursor (row v) (col v) false)).
+            { intros k Hk Hle. unfold vt_cub, goto_rc. rewrite Hm1. cbn [mg_left full_margins].
+              rewrite G1, Grow. destruct (0 <=? v_cols v - 1) eqn:E2; [|lia].
+              f_equal. f_equal. lia. }
+            destruct (1 <? - n) eqn:A1; [lia|].
+            destruct (- n =? 1) eqn:A2; [lia|].
+            destruct (- n =? -1) eqn:A3.
+            + rewrite run_cub0. apply Hcub; lia.
+            + destruct (- n <? -1) eqn:A4; [|lia].
+              rewrite run_cub. destruct (- - n =? 0) eqn:A5; [lia|]. apply Hcub; lia. }
+        rewrite Hmv.
+        assert (Hf2 : same_frame v (set_cur v1 (mkCursor (row v) (col v) false))).
+        { destruct Gf as (F1 & F2 & F3 & F4 & F5). repeat split; assumption. }
+        split.
+        -- unfold effect_ok. refine (conj _ (conj _ (conj _ _))).
+           ++ apply frame_okb_intro; assumption.
+           ++ unfold effect_cursorb. rewrite En. vt_unfold. apply cursor_eqb_refl.
+           ++ vt_unfold. rewrite Hsgr1. apply attrs_eqb_refl.
+           ++ intros y x _ _. apply Hcells; [exact Hf2 | reflexivity].
+        -- apply (vt_ok_frame v _ Hok Hf2); vt_unfold; assumption.
+      * (* MYes: the cursor is already after the cells *)
+        rewrite vt_run_nil.
+        assert (E1 : (col v + n <? v_cols v) = true) by lia. rewrite E1 in Gcur. destruct Gcur as [G1 G2].
+        split.
+        -- unfold effect_ok. refine (conj _ (conj _ (conj _ _))).
+           ++ apply frame_okb_intro; assumption.
+           ++ unfold effect_cursorb. rewrite En. apply cursor_eqb_intro; assumption.
+           ++ rewrite Hsgr1. apply attrs_eqb_refl.
+           ++ intros y x _ _. apply Hcells; [exact Gf | reflexivity].
+        -- apply (vt_ok_frame v _ Hok Gf); lia.
+      * (* MMaybe *)
+        rewrite vt_run_nil.
+        assert (Hc1 : col v <= col v1 <= col v + n /\ col v1 < v_cols v).
+        { destruct (col v + n <? v_cols v) eqn:E1; destruct Gcur as [G1 G2]; lia. }
+        split.
+        -- unfold effect_ok. refine (conj _ (conj _ (conj _ _))).
+           ++ apply frame_okb_intro; assumption.
+           ++ unfold effect_cursorb. rewrite En. lia.
+           ++ rewrite Hsgr1. apply attrs_eqb_refl.
+           ++ intros y x _ _. apply Hcells; [exact Gf | reflexivity].
+        -- apply (vt_ok_frame v _ Hok Gf); lia.
+    + (* normal video: ECH, then CUF when the cursor must end after the cells *)
+      set (n' := if n =? 1 then 1 else if n =? 0 then 1 else n).
+      assert (Hn' : n' = n) by (unfold n'; destruct (n =? 1) eqn:A; [lia|]; destruct (n =? 0) eqn:B; lia).
+      assert (Hech : vt_run (if n =? 1 then [csi_0 88] else [csi_n n 88]) v = vt_ech v n).
+      { destruct (n =? 1) eqn:A.
+        - rewrite run_ech0. f_equal. lia.
+        - rewrite run_ech. destruct (n =? 0) eqn:B; [lia|reflexivity]. }
+      rewrite vt_run_app, Hech. clear n' Hn'.
+      set (v1 := vt_ech v n).
+      assert (Gf : same_frame v v1) by (repeat split).
+      assert (Hcells : forall v', (forall y x, v_grid v' y x = v_grid v1 y x) ->
+                forall y x, effect_cellb (RErase n me) v v' y x = true).
+      { intros v' Hg' y x. unfold effect_cellb. rewrite Hg'. unfold v1, vt_ech. vt_unfold.
+        destruct ((y =? cu_row (v_cur v)) && (cu_col (v_cur v) <=? x) && (x <? cu_col (v_cur v) + n)) eqn:E;
+          [|apply cell_eqb_refl].
+        unfold blank, blank_cell, erased, visbg. cbn [c_glyph c_attrs a_reverse a_bg].
+        rewrite <- Hrv. rewrite vcol_eqb_refl. reflexivity. }
+      destruct me.
+      * rewrite vt_run_nil. split.
+        -- unfold effect_ok. refine (conj _ (conj _ (conj _ _))).
+           ++ apply frame_okb_intro; assumption.
+           ++ unfold effect_cursorb. rewrite En. unfold v1, vt_ech. vt_unfold.
+              apply cursor_eqb_intro; try reflexivity. exact Hp.
+           ++ apply attrs_eqb_refl.
+           ++ intros y x _ _. apply Hcells. reflexivity.
+        -- apply (vt_ok_frame v _ Hok Gf); assumption.
+      * assert (Hmv : vt_run (xt_move_rel 0 n) v1 = set_cur v1 (mkCursor (row v) (col v + n) false)).
+        { rewrite move_rel_run; unfold v1, vt_ech; vt_unfold; try assumption; try lia.
+          assert (E0 : ((0 =? 0) && (n =? 0)) = false) by lia. rewrite E0. f_equal. f_equal. lia. }
+        rewrite Hmv.
+        assert (Hf2 : same_frame v (set_cur v1 (mkCursor (row v) (col v + n) false))) by (repeat split).
+        split.
+        -- unfold effect_ok. refine (conj _ (conj _ (conj _ _))).
+           ++ apply frame_okb_intro; assumption.
+           ++ unfold effect_cursorb. rewrite En. vt_unfold. apply cursor_eqb_refl.
+           ++ apply attrs_eqb_refl.
+           ++ intros y x _ _. apply Hcells. reflexivity.
+        -- apply (vt_ok_frame v _ Hok Hf2); vt_unfold; lia.
+      * rewrite vt_run_nil. split.
+        -- unfold effect_ok. refine (conj _ (conj _ (conj _ _))).
+           ++ apply frame_okb_intro; assumption.
+           ++ unfold effect_cursorb. rewrite En. unfold v1, vt_ech. vt_unfold. lia.
+           ++ apply attrs_eqb_refl.
+           ++ intros y x _ _. apply Hcells. reflexivity.
+        -- apply (vt_ok_frame v _ Hok Gf); assumption.
+Qed.
+
+(* the recorded finding, on the model: reverse video, erase three cells up to the right edge
+   of a 2x5 screen from column 2, cursor to stay: it ends in column 1 *)
+Definition rv_edge_witness : vt :=
+  set_sgr (goto_rc (vt_init 2 5) 0 2) (set_reverse default_attrs true).
+Lemma erase_rv_edge_refuted :
+  vt_ok rv_edge_witness /\ in_range (RErase 3 MNo) rv_edge_witness /\
+  a_reverse (v_sgr rv_edge_witness) = true /\
+  erase_trigger true 3 MNo rv_edge_witness = true /\
+  ~ effect_ok (RErase 3 MNo) true false rv_edge_witness (vt_run (xt_erasech true 3 MNo) rv_edge_witness).
+Proof.
+  split; [vm_compute; reflexivity|]. split; [vm_compute; reflexivity|].
+  split; [reflexivity|]. split; [vm_compute; reflexivity|].
+  intros (_ & H2 & _). vm_compute in H2. discriminate.
 Qed.
